@@ -214,6 +214,28 @@ class Program:
             raise AnalysisBroken('enum %s not found' % ename)
         return {m['name']: m['value'] for m in di['members']}
 
+    def members(self, sname):
+        """debug-info members of a struct: {name: (offset in bits, size in bits)} (bit-fields have sub-byte offsets / sizes)"""
+        di = self.ditypes.get(sname.split('.', 1)[1])
+        if not di: raise AnalysisBroken('no debug-info members for %s' % sname)
+        return {m['name']: (m['off_bits'], m['size_bits']) for m in di['members']}
+
+    def flag_load(self, sname, byte_off, nbytes, values):
+        """value of a load of nbytes at byte_off of a struct whose (possibly bit-field) flag members are given by values {member name: bit term}: a list of
+        nbytes*8 bit terms, or None if no given member lies in that range; members not given read as 0"""
+        mem = self.members(sname)
+        bits = [0] * (8 * nbytes); hit = False
+        for nm, val in values.items():
+            if nm not in mem: continue
+            ob, sb = mem[nm]
+            if sb > 8:
+                continue
+            # a plain bool occupies a whole byte (size 8): its value is in bit 0
+            lo = ob - 8 * byte_off
+            if 0 <= lo < 8 * nbytes:
+                bits[lo] = val; hit = True
+        return bits if hit else None
+
     def dep_globals(self):
         return [g for g in self.globals.values() if g['ty'] == '%' + DEP_STRUCT and not g.get('constant')]      # (a const table of defaults is data, not the library's table)
 
